@@ -85,7 +85,7 @@ CHECKS = {
             "params": {"quick": {"L": 2, "PFX": 3}, "thorough": {"L": 4, "PFX": 3}},
             "max_paths": {"quick": 60000, "thorough": 600000},
             "timeout": {"quick": "10m", "thorough": "60m"},
-            "covers": {"VerifC14Determinism": ["determined"], "VerifC14Reopen": ["created", "reopened", "open-failed"], "VerifC14Escape": ["accepted", "refused"]},
+            "covers": {"VerifC14Determinism": ["determined"], "VerifC14Reopen": ["created", "reopened", "open-failed", "second-create-with-directory-option"], "VerifC14Escape": ["accepted", "refused"]},
         }, {
             "pkg": ODB, "funcs": ["VerifC14Injective"],
             "params": {"quick": {"L": 1}, "thorough": {"L": 2}},
@@ -266,6 +266,11 @@ CHECKS = {
             "max_paths": {"quick": 60000, "thorough": 400000},
             "covers": {"VerifC05Reopen": ["attempt-failed", "by-address", "by-name", "reopened"]},
         }, {
+            "pkg": BS, "funcs": ["VerifC05Burst"],
+            "params": {"quick": {"W": 2, "P": 1}, "thorough": {"W": 3, "P": 2}},
+            "max_paths": {"quick": 60000, "thorough": 400000},
+            "covers": {"VerifC05Burst": ["burst-written", "recovered"]},
+        }, {
             "pkg": BS, "funcs": ["VerifC05Sessions"],
             "params": {"quick": {"T": 2, "S": 2}, "thorough": {"T": 3, "S": 3}},
             "max_paths": {"quick": 60000, "thorough": 400000},
@@ -278,6 +283,7 @@ CHECKS = {
             "history of STEPS steps on one store, each a local write (symbolic payload) or a real replication of a batch written by a remote writer (Sync -> replicator -> fetcher -> Join -> cache write -> EventReplicated)",
             "the store's block store and cache append every mutation to ONE ordered effect log; each effect is durable once its call returns (as the property assumes)",
             "acknowledgement instants: return of AddOperation, emission of EventReplicated (observed synchronously in the emitting goroutine); crash index = a symbolic integer over [0, #effects]; recovered disk = that prefix; fresh store + real Load(-1)",
+            "crash in a burst (VerifC05Burst): W goroutines write concurrently, every schedule with at most P preemptions; the heads cache is captured at the instant each AddOperation returns success (the disk image a crash at that instant leaves); a store reopened over each image and loaded holds that entry and every entry acknowledged before it",
             "clean sessions (VerifC05Sessions): T local writes and a replicated concurrent entry (local + remote cached heads), then S sessions of reopen + Load with any limit in 1..total or everything + optionally one more write, or a second handle on the same directory that loads, writes and is closed BEFORE the first; every Close is clean; a final reopen + full load must hold exactly the acknowledged writes and the replicated entry",
             "identity across restart (VerifC05Identity): instances are made by the PUBLIC NewOrbitDB with neither keystore nor identity given, so the real code opens the keystore datastore under <directory>/<peer id>/keystore (disk model incl. leveldb's directory lock), builds the real go-ipfs-log Keystore (real LRU cache, base64) and runs the real idp.CreateIdentity / OrbitDBIdentityProvider (GetID, signID, SignIdentity); secp256k1 key generation, (un)marshalling and signatures are symbolic stand-ins (fresh keys pairwise distinct, verify(pub(k),m,s) <=> s = sign(k,m)); same directory => same id and public key and the creator-only database is still writable; other directory / in-memory default => another identity whose write is refused; a second instance cannot open the keystore of one still open; Close releases it",
             "clean close / reopen cycles at instance level (VerifC05Reopen): a real orbitDB instance over the real cache manager (cacheleveldown) on the disk model creates a database by name, writes, closes; CYCLES times a new instance on the same directory reopens it by address or by name with Create (the path of the Log / KeyValue / Docs helpers: Create with Overwrite), optionally after an attempt that failed (DAG unreachable while the manifest is read, cancelled context, unregistered store type) and optionally an instance restart after the failure; Load(-1) must yield exactly the acknowledged entries, and a further write succeeds",
@@ -345,15 +351,21 @@ CHECKS = {
             "timeout": {"quick": "10m", "thorough": "60m"},
             "covers": {"VerifC01Log": ["converged", "partial-load", "load-more-from"]},
         }, {
+            "pkg": EL, "funcs": ["VerifC01Overlap"],
+            "params": {"quick": {"T": 2, "P": 1}, "thorough": {"T": 3, "P": 1}},
+            "max_paths": {"quick": 60000, "thorough": 400000},
+            "covers": {"VerifC01Overlap": ["overlapped", "announced-head-is-cached", "announced-head-is-newer"]},
+        }, {
             "pkg": DOC, "funcs": ["VerifC01Docs"],
             "params": {"quick": {"STEPS": 2}, "thorough": {"STEPS": 3}},
             "max_paths": {"quick": 60000, "thorough": 600000},
             "timeout": {"quick": "10m", "thorough": "60m"},
-            "covers": {"VerifC01Docs": ["converged", "partial-load", "put-batch"]},
+            "covers": {"VerifC01Docs": ["converged", "partial-load", "put-batch", "put-all"]},
         }],
         "assumptions": [
             "two writers (real stores built by InitBaseStore over a shared block store) produce a history of STEPS steps, each a local write with symbolic key/value or a real head exchange (Sync -> replicator -> ipfs-log fetcher -> Join) in either direction, in any order; then both exchange heads and a fresh replica receives everything by one of five routes: manual sync in one batch, load from the writer's disk (cache heads + blocks, real Load), a snapshot saved by the writer (real SaveSnapshot / LoadFromSnapshot), the two writers' branches in separate batches followed by a restart from its own disk, or a PARTIAL load from disk (Load with a limit k, k any value below the log length) completed by the heads a lagging peer would announce, handed over by Sync or by LoadMoreFrom (entries below the loaded window, so the log's heads do not move)",
             "the real ipfs-log Append/Join/traverse/sorting run in the interpreter; IPFS is a content-addressed block store stub with perfect hashing; identities use perfect symbolic signatures",
+            "overlapping delivery (VerifC01Overlap): a restarted event-log replica whose cache holds T entries loads from disk WHILE the very head it has cached (or a newer one on top of it) is replicated into it by Sync, every schedule with at most P preemptions; it lists every entry exactly once, in the writer's order",
             "oracle: identical ordered hash lists and identical views on all three replicas; the view equals the replay of the replica's own log",
             "distinct entries never share (Lamport time, writer key): holds by construction (each identity writes through one live store)",
             "document store: the same shape with Put / PutAll (two documents) / PutBatch (two documents) / Delete over symbolic keys drawn from a two-key alphabet, so overwrites, deletes of present and absent keys and PUTALL batches that contain a key twice all occur; the view must equal the replay of the replica's own log after every step",
@@ -413,7 +425,7 @@ CHECKS = {
         }, {
             "pkg": OOO, "funcs": ["VerifC20ChannelID", "VerifC20Monitor", "VerifC20ConnectRace", "VerifC20Reconnect"],
             "params": {"quick": {"L": 2, "M": 3, "P": 1}, "thorough": {"L": 3, "M": 5, "P": 2}},
-            "covers": {"VerifC20ChannelID": ["symmetric", "distinct"], "VerifC20Monitor": ["monitored"], "VerifC20ConnectRace": ["connected"], "VerifC20Reconnect": ["first-context-ended", "reconnected"]},
+            "covers": {"VerifC20ChannelID": ["symmetric", "distinct"], "VerifC20Monitor": ["monitored", "channel-with-self"], "VerifC20ConnectRace": ["connected"], "VerifC20Reconnect": ["first-context-ended", "reconnected"]},
         }, {
             "cross_solvers": ["cvc5", "z3-new"], "pkg": DC, "funcs": ["VerifC20FrameRoundTrip", "VerifC12RawFrame", "VerifC20Factory"],
             "params": {"quick": {"L": 3, "B": 11}, "thorough": {"L": 6, "B": 12}},
@@ -480,6 +492,11 @@ CHECKS = {
             "cross_solvers": ["cvc5", "z3-new"], "pkg": KV, "funcs": ["VerifC06ClockOrder"],
             "covers": {"VerifC06ClockOrder": ["two-writers", "causal-successor"]},
         }, {
+            "pkg": KV, "funcs": ["VerifC06SeenThenPut"],
+            "params": {"quick": {"B": 2, "P": 1}, "thorough": {"B": 3, "P": 1}},
+            "max_paths": {"quick": 60000, "thorough": 400000},
+            "covers": {"VerifC06SeenThenPut": ["merged-while-loading", "seen"]},
+        }, {
             "pkg": KV, "funcs": ["VerifC06ReadDuringWrite"],
             "max_paths": {"quick": 60000, "thorough": 400000},
             "covers": {"VerifC06ReadDuringWrite": ["put", "delete", "merge", "read-during-write"]},
@@ -496,6 +513,7 @@ CHECKS = {
             "store built by the real NewOrbitDBKeyValue/InitBaseStore over stub IPFS/bus/cache; the log handed to the index is a stub exposing Values()",
             "encoding/json replaced by an idealised injective codec driven by the struct tags (omitempty honoured)",
             "clock order (VerifC06ClockOrder): two writers put the same key in entries whose Lamport times are ANY values in [1, 2^40] (symbolic; far beyond what a bounded history reaches), merged through the real Sync; the later one in the (time, writer) order wins, the listing ends with it, and a causal successor (next link, time + 1) overrides both",
+            "happens-before on overlapping routes (VerifC06SeenThenPut): a restarted replica (own earlier put on the same or another key in its cache) loads from disk while the head of a replica that put key k B times later is replicated into it, every schedule with at most P preemptions; its view equals the replay of its log afterwards; whenever it then SHOWS the other replica's value and puts k again, that put wins locally and, after a head exchange, on the other replica (this harness found the index snapshot race fixed in a87e428)",
             "caller-owned results: the map returned by All() is emptied and given a foreign key by the caller; a later All() and Get must still equal the replay (mutating the BYTES of a returned value is outside: values are shared with the index on the unchanged tree, by Go convention read-only)",
             "reads during writes (VerifC06ReadDuringWrite): All and Get started at ANY visible operation of a Put / Delete / merge of a remote batch; afterwards All (twice) and Get equal the replay of the log",
         ],
@@ -513,10 +531,16 @@ CHECKS = {
             "pkg": DOC, "funcs": ["VerifC07ReadDuringWrite"],
             "max_paths": {"quick": 60000, "thorough": 400000},
             "covers": {"VerifC07ReadDuringWrite": ["put", "put-all", "delete", "merge", "read-during-write"]},
+        }, {
+            "pkg": DOC, "funcs": ["VerifC01Docs"],
+            "params": {"quick": {"STEPS": 2}, "thorough": {"STEPS": 2}},
+            "max_paths": {"quick": 60000, "thorough": 600000},
+            "covers": {"VerifC01Docs": ["put-all", "put-batch", "converged"]},
         }],
         "assumptions": [
             "listing of N operations (PUT / DEL / PUTALL of two documents) with symbolic printable-ASCII keys without spaces, symbolic 1-byte document bodies; earlier index state from an arbitrary sub-listing",
             "Get/Query explored over index states made of M single PUTs (they are functions of the index state only)",
+            "public API histories (VerifC01Docs, also run under C01): two writers, STEPS steps of Put / PutAll (two documents, keys from a two-key alphabet so one key may occur twice, symbolic bodies) / PutBatch / Delete / head exchange; after every step the documents equal the replay of the held log, and the operation a PutAll wrote has one member per distinct key of the batch carrying the LAST document given for it, whatever the store held before",
             "reads during writes (VerifC07ReadDuringWrite): a reader (Query of everything, then Get) is started at ANY visible operation of a Put / PutAll / Delete or of the merge of a remote batch on a real store; after the write returned and the store is quiet, Query (asked twice) and Get return exactly the documents of the replayed log",
             "strings.ToLower/Contains/ReplaceAll replaced by byte-loop equivalents (ASCII-exact)",
             "idealised injective JSON codec",
